@@ -7,6 +7,12 @@
 
 package main
 
+// Functions of this package that have no contract and are abstracted wherever they are
+// called (arbitrary result, may modify what their arguments reach). Any other function
+// without a contract is a helper and is executed in place at its call (DESIGN.md 12.15).
+//@ opaque cmd/leptond.resetWatchdog, cmd/leptond.ParseConfig, cmd/leptond.cycleCameraPower, cmd/leptond.logConfig
+//@ opaque cmd/leptond.procArgs, cmd/leptond.startCamera, cmd/leptond.startService
+
 //@ func sendCameraSpecs
 //@   mode permissive
 //@   requires conf != nil && camera != nil && conn != nil
